@@ -22,6 +22,7 @@ def body(ctx):
     VAL = Validator(ctx, prog)
     io_side(ctx, ex, prog, VAL)
     handle_side(ctx, ex, prog)
+    api_returns(ctx, prog)
     VAL.run()
 
 
@@ -208,6 +209,222 @@ def handle_side(ctx, ex, prog):
             m = ctx.decide(f"c04.{vn}.{out}", s.pc, z3.And(c, z3.BoolVal(len(s.roots['tx'].queue) == 1)), group='get / consume return the GetOk / ConsumeOk reply of that channel, FrameUnexpected for any other reply')
             if m is not None:
                 ctx.inconclusive.append(f"C04 {vn} handle-side counterexample: {out}")
+
+
+# ---------------------------------------------------------------------------------------------------------------
+# public API level: what each synchronous operation returns is exactly what the reply carried
+RET_KIND = {'queue_declare': 'QUEUE', 'queue_declare_passive': 'QUEUE', 'queue_purge': 'COUNT', 'purge': 'COUNT', 'queue_delete': 'COUNT',
+            ('QueueV', 'delete'): 'COUNT', 'exchange_declare': 'EXCHANGE', 'exchange_declare_passive': 'EXCHANGE', 'basic_get': 'GET', 'get': 'GET', 'basic_consume': 'CONSUMER', 'consume': 'CONSUMER'}
+
+
+def ret_kind(op):
+    name, recv, fn = op[0], op[1], op[2]
+    return RET_KIND.get((recv, fn), RET_KIND.get(fn, 'UNIT'))
+
+
+def leaf_is(v, name):
+    """v is exactly the reply's component of that deterministic name"""
+    if isinstance(v, Str):
+        return v.s == sym(name, StrSort)
+    if isinstance(v, Int):
+        return v.bv == sym(name, z3.BitVecSort(v.bv.size()))
+    if isinstance(v, Lazy):
+        return z3.BoolVal(v.name == name)
+    return z3.BoolVal(getattr(v, 'origin', None) == name)
+
+
+def some_is(v, name):
+    if not (isinstance(v, Enum) and isinstance(v.disc, int) and v.disc == 1):
+        return z3.BoolVal(False)
+    return leaf_is(v.payloads[1].fields[0], name)
+
+
+def api_returns(ctx, prog):
+    import c12
+    ex = io_executor(ctx, prog, extra=cell_summaries() + [(r'^BTreeMap::<String, AMQPValue>::new$', lambda e, s, f, a: [(s, Agg({}, 'FieldTable', 'EMPTY-TABLE'))])])
+    ctx.bound('api_returns', f"every synchronous / nowait operation of the C12 operation table ({len(c12.OPS)} operations), arbitrary symbolic arguments, arbitrary symbolic message pre-loaded on the channel's reply queue")
+    MVC = prog.types.variants('ChannelMessage')
+    CV = prog.types.variants('amq_protocol::protocol::AMQPClass')
+    ops = c12.OPS
+    if ctx.tier == 'quick':
+        # every operation that returns a value, plus a rotating half of the unit-returning ones
+        ops = [op for i, op in enumerate(c12.OPS) if ret_kind(op) != 'UNIT' or op[7] is None or i % 2 == ctx.seed % 2]
+    npaths = 0
+    for op in ops:
+        name, recv, fn, args, cls, meth, fields, reply = op
+        if recv in ('DeliveryV',) or name.startswith('Consumer.') and reply is None or name in ('Channel.ack_all', 'Channel.nack_all'):
+            continue    # acknowledgements carry no nowait flag and expect no reply: C12 alone
+        f = c12.find_fn(prog, recv, fn)
+        st = State()
+        cell, info = mk_channel(prog, st, replies=[Lazy('std::result::Result<ChannelMessage, errors::Error>', 'reply')])
+        b = c12.Builder(prog, st, info)
+        rcv = c12.receiver(prog, st, b, recv, info)
+        argv = [rcv] + [b.arg(a) for a in args]
+        st.pc += b.pre
+        kind = ret_kind(op)
+        rd, cm_d = sym('reply.disc', BV64), sym('reply#0.0.disc', BV64)
+        if reply is None:
+            matches, want = None, None
+        elif reply == ('GET',):
+            matches, want = z3.And(rd == 0, cm_d == MVC.index('GetOk')), f"reply#0.0#{MVC.index('GetOk')}.0"
+        elif reply == ('CONSUME',):
+            matches, want = z3.And(rd == 0, cm_d == MVC.index('ConsumeOk')), f"reply#0.0#{MVC.index('ConsumeOk')}"
+        else:
+            rc, rm = reply
+            MV = prog.types.variants(f'amq_protocol::protocol::{rc.lower()}::AMQPMethod')
+            base = f"reply#0.0#{MVC.index('Method')}.0"
+            matches = z3.And(rd == 0, cm_d == MVC.index('Method'), sym(base + '.disc', BV64) == CV.index(rc), sym(f"{base}#{CV.index(rc)}.0.disc", BV64) == MV.index(rm))
+            want = f"{base}#{CV.index(rc)}.0#{MV.index(rm)}.0"
+        n = 0
+        for (s, rv) in ex.run(st, f, argv, bind={g: 'String' for g in ('S', 'S0', 'S1', 'S2')}):
+            n += 1
+            npaths += 1
+            inf = s.roots['ch.info']
+            out = err_name(prog, rv) if not isinstance(rv, Panic) else 'PANIC'
+            conds = []
+            if isinstance(rv, Panic):
+                conds.append(z3.BoolVal(rv.kind == 'panic' and fn == 'queue_declare_nowait'))
+            elif fn == 'cancel' and len(inf['tx'].queue) == 0:
+                conds.append(z3.BoolVal(out == 'Ok'))    # already cancelled: nothing sent, nothing awaited
+            elif reply is None:
+                # nowait: returns Ok without touching the reply queue, and asked the server not to answer
+                conds.append(z3.BoolVal(out == 'Ok' and len(inf['rx'].queue) == 1))
+                frames = sent_frames(prog, inf)
+                ok1 = len(frames) == 1 and frames[0][1] is not None and frames[0][1]['kind'] == 'method'
+                conds.append(z3.BoolVal(ok1))
+                if ok1:
+                    cn, mn, ms = method_of(prog, frames[0][1])
+                    mf = prog.types.fields(f'amq_protocol::protocol::{cn.lower()}::{mn}')
+                    if 'nowait' in mf:
+                        v = ms.fields.get(mf.index('nowait'))
+                        conds.append(v.b if isinstance(v, Bool) else z3.BoolVal(False))
+            elif out == 'Ok':
+                val = rv.payloads[0].fields[0]
+                conds.append(matches)
+                if kind == 'QUEUE':
+                    qf = prog.types.fields('Queue')
+                    df = prog.types.fields('amq_protocol::protocol::queue::DeclareOk')
+                    conds += [leaf_is(val.fields[qf.index('name')], f"{want}.{df.index('queue')}"),
+                              some_is(val.fields[qf.index('message_count')], f"{want}.{df.index('message_count')}"),
+                              some_is(val.fields[qf.index('consumer_count')], f"{want}.{df.index('consumer_count')}"),
+                              z3.BoolVal(isinstance(val.fields[qf.index('channel')], Ref) and val.fields[qf.index('channel')].cell is s.roots['ch'])]
+                elif kind == 'COUNT':
+                    conds.append(leaf_is(val, f"{want}.0"))
+                elif kind == 'EXCHANGE':
+                    # Exchange.DeclareOk carries nothing: the handle names the exchange that was declared, on this channel
+                    xf = prog.types.fields('Exchange')
+                    nmv = val.fields[xf.index('name')]
+                    conds += [nmv.s == b.h['exchange'] if isinstance(nmv, Str) else z3.BoolVal(False),
+                              z3.BoolVal(isinstance(val.fields[xf.index('channel')], Ref) and val.fields[xf.index('channel')].cell is s.roots['ch'])]
+                elif kind == 'GET':
+                    conds.append(z3.BoolVal(isinstance(val, Lazy) and val.name == want + '.boxed'))
+                elif kind == 'CONSUMER':
+                    cf = prog.types.fields('Consumer')
+                    conds += [leaf_is(val.fields[cf.index('consumer_tag')], want + '.0'), leaf_is(val.fields[cf.index('rx')], want + '.1'),
+                              z3.BoolVal(isinstance(val.fields[cf.index('channel')], Ref) and val.fields[cf.index('channel')].cell is s.roots['ch'])]
+                else:
+                    conds.append(z3.BoolVal(isinstance(val, Unit) or (isinstance(val, Agg) and not val.fields)))
+            elif out == 'FrameUnexpected':
+                conds.append(z3.And(rd == 0, z3.Not(matches)))
+            else:
+                e = err_value(rv)
+                conds.append(z3.And(rd == 1, z3.BoolVal(getattr(e, 'name', getattr(e, 'origin', None)) == 'reply#1.0')))
+            if reply is not None and not isinstance(rv, Panic) and not (fn == 'cancel' and len(inf['tx'].queue) == 0):
+                conds.append(z3.BoolVal(len(inf['rx'].queue) == 0))    # exactly the one queued reply was consumed
+            claim = z3.And(*conds)
+            m = ctx.decide(f"c04.api[{name}]#{n}:{out}", s.pc, claim,
+                           group="each public synchronous operation returns exactly the values of the reply queued for its channel (queue name and counts, purge/delete count, consumer tag and delivery queue, get result), FrameUnexpected for a reply of another type, the queued error as is; nowait operations return Ok without reading a reply and set the nowait flag so that none will come",
+                           sample={'operation': name, 'result': out})
+            if m is not None:
+                why = ctx.explain(m, conds)[:3]
+                done = False
+                if reply is None:
+                    done = c12.replay_op(ctx, prog, op, b, s, inf, claim, out)
+                else:
+                    done = replay_return(ctx, prog, op, b, s, inf, claim, out, kind, matches, m)
+                if not done:
+                    ctx.inconclusive.append(f"C04 api-return counterexample without native replay: {name} {out} {why}")
+    ctx.extra['api_return_paths'] = npaths
+
+
+def replay_return(ctx, prog, op, b, s, inf, claim, out, kind, matches, m0):
+    """native replay: real Channel over in-memory queues, a concrete reply of the kind the model chose is queued, the call is made
+    and its return value printed; the expectation is computed here from the reply, not from the engine"""
+    import c12
+    from apireplay import API_PRELUDE
+    from ioreplay import Namer, rs_str
+    name, recv, fn, args, cls, meth, fields, reply = op
+    r, m, _ = ctx.solve(list(s.pc) + [z3.ULE(inf['id'], 1000), z3.Not(claim)])
+    if r != 'sat':
+        return False
+    nm = Namer(m)
+    cid = nm.i(inf['id'])
+    rargs = [c12.rust_arg(a, b, nm) for a in args]
+    if any(x is None for x in rargs) or fn == 'close_impl':
+        return False
+    if recv == 'Channel':
+        pre, call = '', f"ch.{fn}({', '.join(rargs)})"
+    elif recv in ('Queue', 'QueueV'):
+        pre, call = f"let q = crate::Queue::new(&ch, {rs_str(nm.s(b.h['self.name']))}.to_string(), None, None);", f"q.{fn}({', '.join(rargs)})"
+    elif recv in ('Exchange', 'ExchangeV'):
+        pre, call = f"let x = crate::Exchange::new(&ch, {rs_str(nm.s(b.h['self.name']))}.to_string());", f"x.{fn}({', '.join(rargs)})"
+    elif recv == 'Consumer':
+        pre = f"let (_ctx, crx) = crossbeam_channel::unbounded(); let c = std::mem::ManuallyDrop::new(crate::Consumer::new(&ch, {rs_str(nm.s(b.h['self.tag']))}.to_string(), crx));"
+        call = f"c.{fn}({', '.join(rargs)})"
+    else:
+        return False
+    is_err = nm.i(sym('reply.disc', BV64)) == 1
+    is_match = (not is_err) and z3.is_true(m.eval(matches, model_completion=True))
+    # concrete replies: the expected kind (distinctive values), an unrelated kind, an error
+    good = {'QUEUE': 'ChannelMessage::Method(AMQPClass::Queue(amq_protocol::protocol::queue::AMQPMethod::DeclareOk(amq_protocol::protocol::queue::DeclareOk { queue: "srv-named".into(), message_count: 41, consumer_count: 7 })))',
+            'COUNT': f'ChannelMessage::Method(AMQPClass::Queue(amq_protocol::protocol::queue::AMQPMethod::{reply[1] if len(reply) > 1 else ""}(amq_protocol::protocol::queue::{reply[1] if len(reply) > 1 else ""} {{ message_count: 41 }})))',
+            'GET': 'ChannelMessage::GetOk(Box::new(Some(crate::Get { delivery: mk_delivery(CID, 77), message_count: 41 })))',
+            'CONSUMER': 'ChannelMessage::ConsumeOk("srv-tag".to_string(), { let (t, r) = crossbeam_channel::unbounded(); t.send(crate::ConsumerMessage::ServerClosedChannel(crate::Error::ClientException)).unwrap(); std::mem::forget(t); r })'}
+    if kind in ('UNIT', 'EXCHANGE'):
+        rc, rm = reply
+        good_expr = f"ChannelMessage::Method(AMQPClass::{rc}(amq_protocol::protocol::{rc.lower()}::AMQPMethod::{rm}(amq_protocol::protocol::{rc.lower()}::{rm} {{}})))"
+        if rm == 'CancelOk':
+            good_expr = 'ChannelMessage::Method(AMQPClass::Basic(amq_protocol::protocol::basic::AMQPMethod::CancelOk(amq_protocol::protocol::basic::CancelOk { consumer_tag: "t".into() })))'
+    else:
+        good_expr = good[kind].replace('CID', str(cid))
+    other = 'ChannelMessage::Method(AMQPClass::Basic(amq_protocol::protocol::basic::AMQPMethod::RecoverOk(amq_protocol::protocol::basic::RecoverOk {})))'
+    if reply == ('Basic', 'RecoverOk'):
+        other = 'ChannelMessage::Method(AMQPClass::Basic(amq_protocol::protocol::basic::AMQPMethod::QosOk(amq_protocol::protocol::basic::QosOk {})))'
+    want_good = {'QUEUE': 'Ok:queue=srv-named:Some(41):Some(7)', 'COUNT': 'Ok:41', 'GET': 'Ok:get=77:41', 'CONSUMER': 'Ok:consumer=srv-tag:true', 'UNIT': 'Ok:()',
+                 'EXCHANGE': 'Ok:exchange=' + (nm.s(b.h['exchange']) if 'exchange' in b.h else '')}[kind]
+    show = {'QUEUE': 'Ok(q) => format!("Ok:queue={}:{:?}:{:?}", q.name(), q.declared_message_count(), q.declared_consumer_count())',
+            'COUNT': 'Ok(n) => format!("Ok:{}", n)',
+            'GET': 'Ok(Some(g)) => format!("Ok:get={}:{}", g.delivery.delivery_tag(), g.message_count), Ok(None) => "Ok:None".to_string()',
+            'CONSUMER': 'Ok(c) => { let s = format!("Ok:consumer={}:{}", c.consumer_tag(), c.receiver().try_recv().is_ok()); std::mem::forget(c); s }',
+            'EXCHANGE': 'Ok(x) => format!("Ok:exchange={}", x.name())',
+            'UNIT': 'Ok(()) => "Ok:()".to_string()'}[kind]
+    test = API_PRELUDE + f"""
+use crate::io_loop::ChannelMessage;
+fn mk_delivery(chan: u16, tag: u64) -> crate::Delivery {{
+    let (_t, d) = crate::Delivery::new(chan, amq_protocol::protocol::basic::Deliver {{ consumer_tag: "t".into(), delivery_tag: tag, redelivered: false, exchange: "".into(), routing_key: "".into() }}, Vec::new(), Default::default());
+    d
+}}
+#[test]
+fn verif_replay_c04_return() {{
+    let mut bad: Vec<String> = Vec::new();
+    // the model's case first ({'error reply' if is_err else 'matching reply' if is_match else 'reply of another type'}), then the other two
+    for case in [{0 if is_match else 2 if is_err else 1}, 0, 1, 2].iter() {{
+        let (ch, rx, tx) = mk_channel({cid}, 4088);
+        let (other, _orx, _otx) = mk_channel({cid}, 4088);
+        let reply: crate::Result<ChannelMessage> = match case {{ 0 => Ok({good_expr}), 1 => Ok({other}), _ => Err(crate::Error::ClientException) }};
+        let want = match case {{ 0 => {rs_str(want_good)}.to_string(), 1 => "Err:FrameUnexpected".to_string(), _ => "Err:ClientException".to_string() }};
+        tx.send(reply).unwrap();
+        let got = {{ {pre} match {call} {{ {show}, Err(e) => format!("Err:{{:?}}", e) }} }};
+        let left = tx.len();
+        if got != want || left != 0 {{ bad.push(format!("case={{}}:got={{}}:want={{}}:unread={{}}", case, got, want, left)); }}
+        let _ = rx; std::mem::forget(ch); std::mem::forget(other);
+    }}
+    if bad.is_empty() {{ println!("VERIF-REPLAY-OK"); }} else {{ println!("VERIF-REPLAY-VIOLATION api-return:{name} {{}}", bad.join(";")); }}
+}}
+"""
+    ctx.report(f"api-return:{name}", f"{name}: the value returned differs from what the reply queued for the channel carried ({out})",
+               {'operation': name, 'model_case': 'error' if is_err else 'match' if is_match else 'other'}, test, inject_into='src/io_loop/channel_handle.rs', profiles=('dev',))
+    return True
 
 
 if __name__ == '__main__':
